@@ -99,4 +99,73 @@ def Wrapper.run {Orbit Lines Sat K : Type} (w : Wrapper Orbit Lines Sat K) (orbi
 def Wrapper.runDelta {Orbit Lines Sat K : Type} (w : Wrapper Orbit Lines Sat K) (orbit : Orbit) (epochUs : Nat) (deltaUs : Int) : List K :=
   w.run orbit (epochUs + deltaUs).toNat
 
+
+/-! ## The binding logic as a state machine
+
+`Orbit.propagate` hands the orbit to its `Sgp4` object; the object keeps a satellite record (`self.tle`) and what it was
+computed from (`self._bound_to = self._state(orbit)`).  `Sgp4.propagate` first compares `self._state(self._orbit)` with
+`self._bound_to` and runs the setter again when they differ, then uses the record.  The orbit is a mutable object: between two
+calls any of its values may have been edited in place.  `V` = everything the orbit currently holds, `stateKey` = `Sgp4._state`. -/
+
+/-- what the propagator object keeps between calls -/
+structure Bound (Key Sat : Type) where
+  key : Key
+  sat : Sat
+
+structure Machine (V Key Lines Sat K : Type) extends Wrapper V Lines Sat K where
+  stateKey : V → Key
+
+/-- the `orbit` setter: regenerate the text from the CURRENT values, build the record, remember the key -/
+def Machine.bind {V Key Lines Sat K : Type} (m : Machine V Key Lines Sat K) (v : V) : Bound Key Sat :=
+  ⟨m.stateKey v, m.twoline2rv (m.regen v)⟩
+
+/-- one call `orbit.propagate(date)` with current values `v`: the record in use afterwards, whether the setter ran, the reply.
+`none` = no propagator bound to this orbit object yet (a new orbit, a copy) -/
+def Machine.step {V Key Lines Sat K : Type} [DecidableEq Key] (m : Machine V Key Lines Sat K) (b : Option (Bound Key Sat)) (v : V) (us : Nat) :
+    Bound Key Sat × Bool × List K :=
+  let r : Bound Key Sat × Bool := match b with
+    | some b => if m.stateKey v ≠ b.key then (m.bind v, true) else (b, false)
+    | none => (m.bind v, true)
+  let pv := m.propagate r.1.sat (utcFields us)
+  (r.1, r.2, (pv.1 ++ pv.2).map m.scale)
+
+/-- a history: in-place edits of the orbit's values and propagations -/
+inductive Op (V : Type) where
+  | edit (f : V → V)
+  | propagate (us : Nat)
+
+/-- replies of the propagations of a history, paired with the values the orbit held at that call -/
+def Machine.history {V Key Lines Sat K : Type} [DecidableEq Key] (m : Machine V Key Lines Sat K) :
+    Option (Bound Key Sat) → V → List (Op V) → List (V × Nat × List K)
+  | _, _, [] => []
+  | b, v, Op.edit f :: rest => m.history b (f v) rest
+  | b, v, Op.propagate us :: rest =>
+    let r := m.step b v us
+    (v, us, r.2.2) :: m.history (some r.1) v rest
+
+/-- label fields of the text: `twoline2rv` stores them, the propagation does not read them (oracle family `label-edit`) -/
+def labelReads : List String := ["name", "norad_id", "cospar_id", "element_nb", "revolutions"]
+
+/-- which compared values determine a value `Tle.from_orbit` reads: the six coordinates of the TEME/TLE copy are a function of
+the buffer, the form, the frame and (frame changes) the date; every other value must be compared itself -/
+def coveredBy (r : String) : List String :=
+  if r = "coords" ∨ r = "copy" then ["tobytes", "form", "frame", "date"] else [r]
+
+/-- the concrete machine the driver runs: values = (key id, version id), the "library" returns the version the record was built from -/
+def idMachine : Machine (Nat × Nat) Nat Nat Nat Nat :=
+  { regen := fun v => v.2, twoline2rv := id, propagate := fun s _ => ([s], []), scale := id, stateKey := fun v => v.1 }
+
+/-- `wrapseq`: tokens `e<key>:<version>` (the orbit now holds these values) and `p` (propagate) ↦ per `p`: `<setter ran 0/1>:<version of the record used>` -/
+def runSeq : Option (Bound Nat Nat) → Nat × Nat → List String → Option (List String)
+  | _, _, [] => some []
+  | b, v, tok :: rest =>
+    if tok = "p" then
+      let r := idMachine.step b v 0
+      (runSeq (some r.1) v rest).map (fun l => ((if r.2.1 then "1:" else "0:") ++ toString r.1.sat) :: l)
+    else if tok.startsWith "e" then
+      match ((tok.drop 1).toString.splitOn ":").map String.toNat? with
+      | [some k, some ver] => runSeq b (k, ver) rest
+      | _ => none
+    else none
+
 end BeyondVerif.Sgp4Wrap
